@@ -303,6 +303,9 @@ func getKDFKey(cryptoJSON cryptoJSON, auth string) ([]byte, error) {
 	if err != nil {
 		return nil, err
 	}
+	if dkLen < 0 {
+		return nil, fmt.Errorf("invalid KDF params: negative dklen")
+	}
 
 	if cryptoJSON.KDF == keyHeaderKDF {
 		n, err := ensureInt(cryptoJSON.KDFParams["n"])
